@@ -147,7 +147,9 @@ Proof.
     assert (Hr2 : length r2 < length (c :: e :: r2)) by (cbn; lia).
     repeat match type of H with
            | (if ?b then _ else _) = _ => destruct b eqn:?
-           end; try (eapply Hsimple; [exact Hr2|exact H]).
+           end; try (eapply Hsimple; [exact Hr2|exact H]);
+           try (apply IH in H; cbn [length] in *; lia);
+           try (destruct r2 as [|c2 r3]; [|destruct (N.eqb c2 10)]; apply IH in H; cbn [length] in *; lia).
     all: destruct (take_hex _ r2 0) as [v0|] eqn:Eh; try (eapply Hsimple; [exact Hr2|exact H]).
     all: destruct (is_scalar16 v0); try (eapply Hsimple; [exact Hr2|exact H]).
     all: eapply Hsimple; [|exact H]; rewrite skipn_length; cbn; lia.
